@@ -485,11 +485,11 @@ def run(tier: str, seed: int, replay: str | None = None) -> int:
         if impl["failures"]:
             chk.violation({"reason": "a rule failed internally (swallowed exception) during the run", "failures": impl["failures"][:3], **small})
             continue
-        d = delta_ok(case, impl)
-        if d:
-            chk.violation({"reason": "delta law violated on the implementation: " + d, "impl": impl["runs"], **small})
-            continue
+        n_viol = len(chk.violations)
         if ver is None:
+            d = delta_ok(case, impl)
+            if d:
+                chk.violation({"reason": "delta law violated on the implementation: " + d, "impl": impl["runs"], **small})
             for cfg in case["cfgs"]:
                 chk.count([f, cfg], False)
             continue
@@ -530,6 +530,11 @@ def run(tier: str, seed: int, replay: str | None = None) -> int:
                 info["model_actual_matches_impl"] = cand[0]
                 info["model_ideal_matches_spec"] = ideal_ok
                 chk.violation(info)
+        if len(chk.violations) == n_viol:
+            # the delta law directly on the implementation's outputs (proved for the model under every quirk vector)
+            d = delta_ok(case, impl)
+            if d:
+                chk.violation({"reason": "delta law violated on the implementation: " + d, "impl": impl["runs"], **small})
     names = ["actual"] + [f"actual without {f}" for f in FLAGS] + ["ideal"]
     for lang, ca in cands_all.items():
         if ca[0]:
